@@ -209,7 +209,7 @@ def check_c20(run):
                       "layouts = leading blank/comment lines x preceding rules x filler statements x enclosing statement kind (top level, if, "
                       "else-if, else, for, forRange, if inside for, conc) x 25 faulty statements of 10 fault classes x one-line / two-line "
                       "layout, plus faults inside if / else-if / for conditions; the specification computes the line of the failing construct "
-                      "from the layout; enumerated completely by TLC (3440 quick, 22 000 thorough); distinct = layouts that compile",
+                      "from the layout; enumerated completely by TLC (about 13 000 layouts in the quick tier, more in the thorough tier); distinct = layouts that compile",
                       exhaustive=True,
                       explanation="states = layouts whose line arithmetic was checked (LayoutSane) and generated")
 
